@@ -379,3 +379,75 @@ def props_apd(u: Unit):
             v = d.get(key)
             conds.append(z3.BoolVal(True) if isinstance(v, VNone) else (to_real(v) == cur[fld]) if v is not None else z3.BoolVal(False))
         u.oblige(p, "props.roundtrip[APDCharacteristics:after_setter]", z3.And(*conds), {}, APD_REPLAY)
+
+
+# ---- load_detector in a history: load, later steps modify the running detector, load again ---------------------------------
+HISTORY_REPLAY = lambda w: {"code": """
+import numpy as np, tempfile, os, verif_probes as VP
+from pyxel.models import load_detector, save_detector
+d = VP.detector(rows=2, cols=3); d.pixel.array = np.full((2, 3), 5.0); d.charge.add_charge_array(np.full((2, 3), 3.0))
+fn = os.path.join(tempfile.mkdtemp(), 'det.asdf')
+save_detector(d, fn)
+running = VP.detector(rows=2, cols=3)
+load_detector(running, fn)
+running.empty()                                   # what the next readout step does
+running.pixel.array = np.full((2, 3), 9.0)        # ... and what a later model does
+load_detector(running, fn)
+ok = np.array_equal(running.pixel.array, np.full((2, 3), 5.0)) and np.array_equal(running.charge.array, np.full((2, 3), 3.0))
+VIOLATED = not ok
+DETAIL = 'second load of the unchanged file: pixel=' + repr(running.pixel.array.ravel()[:2]) + ' charge=' + repr(running.charge.array.ravel()[:2]) + ' (file holds 5.0 / 3.0)'
+""", "expect": "every load of an unchanged file gives the file's state, whatever happened to the running detector in between"}
+
+
+@unit("C18", "load_model.history")
+def load_history(u: Unit):
+    """load_detector ; detector.empty() ; load_detector  (same unchanged file): after the second load the running detector
+    holds the FILE's pixel and charge content again. Detector.load is a contract (content = a function of the file);
+    functools caches are library contracts (a hit returns the same object). BOUNDED in the history length."""
+    from pyvc.front import FunctionInfo
+    from . import fsmodel
+    fl = u.fn("pyxel/models/util.py::load_detector")
+    src = ("def _history(detector, filename):\n"
+           "    load_detector(detector, filename)\n"
+           "    detector.empty()\n"
+           "    load_detector(detector, filename)\n")
+    drv = FunctionInfo(fl.module, ast.parse(src).body[0], None)
+    cfg = D.install(Cfg("real"))
+    fsmodel.install(cfg)
+    cfg.lib_overrides[("objdict",)] = True
+    FILE = {b: z3.Function(f"file_{b}", z3.IntSort(), z3.IntSort(), z3.RealSort()) for b in ("pixel", "charge")}
+
+    def load(ex, args, kwargs, fr):
+        keep = ex.det_parts
+        d2 = D.mk_detector(ex, u, prior="arbitrary")
+        for b in ("pixel", "charge"):
+            ex.st.cell(ex.det_parts[b]).fields["_array"] = ex.st.alloc(HArr((D.ROWS, D.COLS), VDtype("float64"), lambda ix, f=FILE[b]: VFloat(f(z_int(ix[0]), z_int(ix[1])))))
+        ex.st.cell(ex.det_parts["charge"]).fields["_frame"] = D.df_obj(ex, z3.IntVal(0))
+        ex.det_parts = keep
+        return d2
+    cfg.contracts["pyxel/detectors/detector.py::Detector.load"] = Contract("pyxel/detectors/detector.py::Detector.load", load, "a NEW detector holding the file's content (C18 round trip)")
+    for q in ("pyxel/util/__init__.py::resolve_with_working_directory", "pyxel/util/fileutil.py::resolve_with_working_directory", "pyxel/options.py::resolve_with_working_directory"):
+        cfg.contracts[q] = Contract(q, lambda ex, args, kwargs, fr: (args[0] if args else kwargs.get("filename")), "path resolution: identity here")
+
+    def setup(ex):
+        det = D.mk_detector(ex, u, prior="arbitrary")
+        ex.running = dict(ex.det_parts)
+        fn = VStr(z3.String("filename"))
+        ex.st.assume(z3.Select(fsmodel.fs(ex), fn.v) != 0)      # the file exists
+        return [det, fn], {}
+    ps = u.paths(drv, setup, cfg, label="load ; empty ; load")
+    n_ret = 0
+    for p in ps:
+        if p.kind != "return":
+            continue
+        n_ret += 1
+        run_det = p.st.cell(p.ex.running["det"]).fields
+        for b in ("pixel", "charge"):
+            cur = run_det.get("_" + b)
+            arr = p.st.cell(cur).fields.get("_array") if isinstance(cur, VRef) else None
+            got = D.frame_elem(p.st, arr)
+            present = True
+            if isinstance(arr, VMaybe):
+                present = arr.present
+            u.oblige(p, f"load_model.history[{b}]", z3.And(zb(present), got == FILE[b](*D.GEN)) if got is not None else False, {}, HISTORY_REPLAY)
+    u.cover("load_model.history.cover", [1] * n_ret, lambda _: True)
